@@ -9,11 +9,31 @@
     which is pure; mixed=True holders are outside it and not driven): right converter, right payload (for s -> x: the stabilizer
     half of the held CliffordTableau, proved entry-wise; dm -> g: the networkx graph of the returned adjacency), result wrapped
     in the right class, _rep_type set.  History: dm -> g and s -> g failed before fix commit 8246b09 (props/C08.findings.md).
+[P] stabilizer -> graph chain (contracts/graph_finder.py, contracts/row_reduction.py; symbolic n unless stated):
+    _graph_finder: FRAME (int- and float-dtype arguments are not modified; the in-place callees sla.row_reduction /
+      sla.hadamard_transform only ever see np.copy's whose contents equal the arguments') + gate BOOKKEEPING (the returned H
+      positions are the very list the X/Z column exchange was done with, found on the row-reduced working X part; the returned
+      P_dag positions are the increasing enumeration of the non-zero diagonal entries that are cleared; the graph is built from
+      that matrix with zero diagonal) + result shape for get_ops_data True / False; abrupt exits: the three certificate asserts.
+    sla.hadamard_transform: listed columns of X and Z exchanged in place, everything else untouched (0, 1, 2 positions).
+    sla._row_red_one_step / sla.row_reduction: X and Z are written ONLY by row_swap / add_rows, the same operation with the same
+      rows on both (add_rows source != target), argument objects returned, pivot characterised (while-loop: partial correctness).
+    state_to_graph [trace], 4 input kinds: deep copy; _graph_finder on the copy's X / Z part (stabilizer half of a Clifford tableau);
+      gates = H list + P_dag list (element-wise, symbolic lengths) + the result of _phase_correction, which is called on EVERY
+      path with exactly that list; returns (graph, tableau, gates); graph / adjacency input: (graph, tableau(graph), []).
+    _phase_correction [trace + arithmetic, precondition X(T) = I]: canonical forms of both arguments, circuit run forward on a COPY,
+      Z on qubit i <=> sign of generator i differs (Z_i flips exactly K_i), ascending; afterwards all signs agree.
+[F] _position_finder, exact over ALL echelon forms n <= 3 (real code evaluated): returns exactly the non-pivot columns - holds when column 0
+    carries a pivot; the complementary class is REFUTED on the unchanged tree = recorded finding C08-F3 (props/C08.findings.md D08-4).
+[P] stabilizer_to_graph, graph_to_density [trace]: dispatch (one _graph_finder per tableau on ITS X / Z views, weights in order,
+      validation compares the input with the result's tableaux; mixture = sum p_i rho_i; other inputs raise).
 [B-only]/[N]: _graph_to_density_pure, _stabilizer_to_density_pure (dense 2^n x 2^n operator algebra; the latter ignores the
     generator signs - bounded finding F08-2), density_to_graph/_density_to_graph_pure/density_to_stabilizer (negativity through
-    np.linalg.eigh with a threshold: [N]), stabilizer_to_graph/_graph_finder/_position_finder (np.linalg.det/inv in floating
-    point as a GF(2) inverse: [N]; only its certificate asserts are checked at run time), state_to_graph, _phase_correction,
-    mixed_*_equivalency, get_clifford_tableau_from_graph / clifford_from_stabilizer (inverse_circuit: C11).
+    np.linalg.eigh with a threshold: [N]), the float GF(2) inverse inside _graph_finder / _phase_correction (np.linalg.det/inv:
+    [N] - modelled as an unspecified 0/1 matrix, exact only for the identity), hence "the graph found is LC-equivalent to the
+    input" (certificate asserts + bounded), _position_finder for n > 3 (relies on IndexError control flow: outside the accepted subset),
+    canonical_form / run_circuit as recorded calls here (C05, C07, C11), mixed_*_equivalency,
+    get_clifford_tableau_from_graph / clifford_from_stabilizer (inverse_circuit: C11).
 """
 from __future__ import annotations
 
@@ -68,14 +88,20 @@ def _attach_native_witnesses(d):
 
 
 def deductive(tier="quick", seed=0):
-    d = run_tasks(RCV.tasks())
+    from contracts import graph_finder as GFM, row_reduction as RRM
+    from lemmas import matsum, gateseq_checks
+
+    d = run_tasks(RCV.tasks() + GFM.tasks() + RRM.tasks())
+    d.obligations.extend(matsum.prove_sum_support2())  # L2 lemma behind the closed form of x_inv @ phase_diff (_phase_correction)
+    d.obligations.extend(GFM.position_finder_obligations())  # [F] exact; the class "column 0 carries no pivot" is finding C08-F3
     _attach_native_witnesses(d)
     from lemmas import model_checks
 
     model_checks.attach(d, seed)
-    can = run_tasks(RCV.canary_tasks())
+    gateseq_checks.attach(d, seed)
+    can = run_tasks(RCV.canary_tasks() + GFM.canary_tasks() + RRM.canary_tasks())
     d.errors.extend(can.errors)
-    d.canaries = TS.canary_summary(can)
+    d.canaries = TS.canary_summary(can) + [matsum.canary()]
     for c in d.canaries:
         if c["refuted"] and not c["replayed"]:
             d.notes.append(f"canary {c['name']} refuted, counter-model not replayed")
@@ -86,13 +112,22 @@ def deductive(tier="quick", seed=0):
         "[A] np.sqrt(n*n) = n exactly",
         "[A-recorders] in the dispatch proofs the six converters of state_rep_conversion and the representation-class "
         "constructors are recorded calls whose preconditions are the payload types their own isinstance dispatch accepts",
-        "[B-only] _graph_to_density_pure, _stabilizer_to_density_pure, density_to_graph (eigh/negativity [N]), stabilizer_to_graph "
-        "/_graph_finder (float GF(2) inverse [N]), state_to_graph, _phase_correction, clifford_from_stabilizer",
+        "[B-only] _graph_to_density_pure, _stabilizer_to_density_pure, density_to_graph (eigh/negativity [N]), the float GF(2) inverse "
+        "inside _graph_finder / _phase_correction ([N]: which graph is found), _position_finder, clifford_from_stabilizer",
+        "[T-canon] the canonical form of a stabilizer tableau whose X part is invertible has X = I (precondition X(T) = I of _phase_correction)",
+    ] + GFM.TRUSTED + RRM.TRUSTED
+    d.assumptions += [
+        "_graph_finder: x_matrix, z_matrix are n x n bit matrices (int or float dtype), x_matrix is not the zero matrix in its last column at/below "
+        "the pivot of row 0 - i.e. row_reduction returns rank >= 0 (for X = 0 the code indexes x_mat[-1], a negative index outside S6; that input "
+        "class ends in the 'not independent' assert anyway: finding C08-F3)",
+        "_phase_correction: X part of canonical(run(gates, canonical(tab1))) is the identity (both callers: the target is a graph state)",
     ]
     d.not_applicable_clauses += [
         "density-matrix -> graph recovery (negativity threshold via eigh): [N] floating-point spectral test",
-        "stabilizer -> graph for any generating set (float det/inv as GF(2) inverse): [N]; certificate + bounded only",
-        "state_to_graph gates map the input exactly, signs included: bounded only",
+        "stabilizer -> graph for any generating set: WHICH graph is found (float det/inv as GF(2) inverse) is [N] - certificate + bounded only; "
+        "frame, gate bookkeeping and composition are [P] (contracts/graph_finder.py)",
+        "state_to_graph gates map the input exactly, signs included: the composition (H list, P_dag list, sign repair always consulted, Z exactly "
+        "where a sign differs) is [P]; that H / P_dag at the recorded positions turn the reduced tableau into the graph's is bounded only",
         "convert_representation with mixed=True: outside the statement (graph states are pure); not driven (findings D08-3)",
     ]
     return d
